@@ -2,7 +2,7 @@
 from .. import core
 from ..core import Suite
 
-LEAN_TARGETS = ['Uds.Props.C15', 'Uds.Props.C15Hist']
+LEAN_TARGETS = ['Uds.Props.C15', 'Uds.Props.C15Hist', 'Uds.Props.C15Stray']
 ASSUMPTIONS = [
     'the client state the model carries is {session timing, suppress flags, override}; a monitor snapshots client.__dict__ and config around every real call '
     'and fails if anything else changed, which is what ties "the model state is the whole state" to the code',
